@@ -1201,6 +1201,16 @@ pub fn run(ctx: &Ctx, prop: &'static str) -> Report {
         enumerated exhaustively to a fixed depth, long ones are random; distinct by (limits, action list); non-trivial = at least 3 enabled actions";
     let mut rep = Report::new(prop, rule);
     rep.assume("the scripted transport mirrors TcpTransport's contract (tcp/mod.rs): one reaction per dial/open, nothing after cancel, established peer = /p2p of the dialed address");
+    // node level (C10): address attribution on the real TCP transport
+    if prop == "C10" {
+        let node_replay = ctx.replay.as_ref().map(|p| std::fs::read_to_string(p).unwrap_or_default().contains("node-address"));
+        if node_replay != Some(false) {
+            crate::nodex::c10_node_level(ctx, &mut rep);
+        }
+        if node_replay == Some(true) {
+            return rep;
+        }
+    }
     let _rt = runtime();
     let _guard = _rt.enter();
     if let Some(path) = &ctx.replay {
